@@ -181,11 +181,18 @@ Definition vty (p : prog) (v : var) : option tinfo :=
   end.
 
 (* value infos of a graph's arguments / results; to_onnx(concrete) *)
-Definition value_info (p : prog) (concrete : bool) (s : scope) (v : var) : res (string * string) :=
+(* [mode]: Some true = Graph.to_onnx(concrete=True) (the main graph of the model), Some false = a subgraph (types need not be
+   concrete), None = no value infos at all: a function body is only compiled (Function.to_onnx_function takes the nodes of the
+   build result; a FunctionProto carries no types, so nothing is required of the types of the body's arguments and results) *)
+Definition value_info (p : prog) (mode : option bool) (s : scope) (v : var) : res (string * string) :=
   do nm <- vlook s v ;;
-  match vty p v with
-  | None => raise EType                                       (* Var.unwrap_type on an untyped Var *)
-  | Some t => if (concrete && negb (tconcrete t))%bool then raise EValue else ret (nm, tshow t)
+  match mode with
+  | None => ret (nm, "")
+  | Some concrete =>
+    match vty p v with
+    | None => raise EType                                       (* Var.unwrap_type on an untyped Var *)
+    | Some t => if (concrete && negb (tconcrete t))%bool then raise EValue else ret (nm, tshow t)
+    end
   end.
 
 (* opset requirements *)
@@ -301,7 +308,7 @@ Definition body_values (body : nat) : string :=
 
 (* compile_graph + (for subgraphs) the value infos that Graph.to_onnx() computes right after it.
    Returns the emitted graph, the threaded scope, the opset requirements and the functions met (own nodes and subgraphs). *)
-Fixpoint compile (fuel : nat) (s : scope) (g : nat) (prefix : string) (is_main : bool) : res (mgraph * scope * req * list fdesc) :=
+Fixpoint compile (fuel : nat) (s : scope) (g : nat) (prefix : string) (is_main : option bool) : res (mgraph * scope * req * list fdesc) :=
   match fuel with O => raise EFuel | S f =>
   do s1 <- foldM (fun s a => scope_update p un s (vnode a) prefix) (args_of g) s ;;
   do r <- foldM (fun (acc : list mnode * scope * req * list fdesc * list fdesc) (u : nref) =>
@@ -373,7 +380,7 @@ Fixpoint compile (fuel : nat) (s : scope) (g : nat) (prefix : string) (is_main :
                      match snd ka with
                      | AVal _ => ret ((l ++ [(fst ka, None)])%list, s, rq, fs)
                      | AGraph sub =>
-                       do r <- compile f s sub (nm ++ "_" ++ fst ka ++ "__") false ;;
+                       do r <- compile f s sub (nm ++ "_" ++ fst ka ++ "__") (Some false) ;;
                        let '(mg, s', rq', fs') := r in
                        ret ((l ++ [(fst ka, Some mg)])%list, s', union req_eqb rq rq', (fs ++ fs')%list)
                      end) (attrs nd) ([], s2, rq, sfs) ;;
@@ -489,7 +496,7 @@ Record built := { b_graph : mgraph; b_scope : scope; b_req : req; b_args : list 
 
 Definition body_nodes (g : mgraph) : list mnode := match g with MGraph _ b _ => b end.
 
-Fixpoint build_main (ffuel : nat) (p : prog) (un : names) (main : nat) : res built :=
+Fixpoint build_main_gen (vi : option bool) (ffuel : nat) (p : prog) (un : names) (main : nat) : res built :=
   match ffuel with O => raise EFuel | S ff =>
   let F := fuel_of p in
   do d <- discover F p dstate0 main ;;
@@ -502,12 +509,14 @@ Fixpoint build_main (ffuel : nat) (p : prog) (un : names) (main : nat) : res bui
   let fbuild (n body : nat) : res (list mnode * req * list fdesc) :=
     let unb := (un ++ map (fun ik => (V (NIntro body) (fst ik), fst (snd ik)))
                         (combine (seqn 0 (List.length (gres (getg p body)))) (gres (getg p body))))%list in
-    do b <- build_main ff p unb body ;;
+    do b <- build_main_gen None ff p unb body ;;
     ret (body_nodes (b_graph b), b_req b, b_funs b) in
-  do r <- compile p un args_of own_of fbuild F scope0 main "" true ;;
+  do r <- compile p un args_of own_of fbuild F scope0 main "" vi ;;
   let '(mg, s, rq, fs) := r in
   ret {| b_graph := mg; b_scope := s; b_req := rq; b_args := args_of main; b_funs := fs |}
   end.
+
+Definition build_main := build_main_gen (Some true).
 
 (* Graph.to_onnx_model on the result: one FunctionProto per (domain, name), RuntimeError on two different definitions *)
 Definition function_proto (model_imports : list (string * nat)) (f : fdesc) : mfunction :=
